@@ -101,6 +101,17 @@ Record edit_obs := mkEdit {
   eo_after : option (list (positive * text))   (* None = exception *)
 }.
 
+(* one direct call of an OptionRecord edit method on a real parsed record *)
+Record opt_obs := mkOpt {
+  oo_kind : nat;                   (* 1 set_option, 2 remove_option, 3 append_option, 4 prepend_option, 5 replace_option *)
+  oo_before : list node;           (* children of record.root *)
+  oo_key : text;                   (* key / old *)
+  oo_val : option text;            (* value (None = option without value) *)
+  oo_new : text;                   (* replace_option: new *)
+  oo_after : option (list node);   (* children of the new root; None = the call raised *)
+  oo_exc : nat                     (* 0 none, 1 IndexError, 2 NoSuchRuleException / AttributeError, 9 other *)
+}.
+
 Record case := mkCase {
   c_text : text;
   c_first : text;                          (* text before the first record as the implementation saw it *)
@@ -111,7 +122,8 @@ Record case := mkCase {
   c_str_eq : bool;                         (* Python: str(stream) == text *)
   c_names : list (text * positive);        (* rule names of this case *)
   c_steps : list (text * list step);       (* the real post_process tuples *)
-  c_edits : list edit_obs
+  c_edits : list edit_obs;
+  c_opts : list opt_obs
 }.
 
 Definition rule_id_of (names : list (text * positive)) (n : text) : positive :=
@@ -264,8 +276,57 @@ Definition guard_tags (c : case) : list nat :=
   tag (negb (existsb (fun ch => (ch =? 38)%N) (c_text c))) 205 ++
   tag (negb (existsb (fun ch => (ch =? 0)%N) (c_text c))) 206.
 
+(* ---- option-record edits ---------------------------------------------------------------------- *)
+Fixpoint nodes_eqb (a b : list node) : bool :=
+  match a, b with
+  | [], [] => true
+  | x :: a', y :: b' => node_eqb x y && nodes_eqb a' b'
+  | _, _ => false
+  end.
+Definition onodes_eqb (a b : option (list node)) : bool :=
+  match a, b with Some x, Some y => nodes_eqb x y | None, None => true | _, _ => false end.
+
+Definition check_opts (c : case) : list nat :=
+  let rid := rule_id_of (c_names c) in
+  let r_option := rid (T "option") in let r_KEY := rid (T "KEY") in let r_VALUE := rid (T "VALUE") in
+  let r_EQUAL := rid (T "EQUAL") in
+  flat_map (fun o =>
+    let ch := oo_before o in
+    let model :=
+      match oo_kind o with
+      | 1 => match oo_val o with Some v => set_option r_option r_KEY r_VALUE r_EQUAL r_WS ch (oo_key o) v | None => None end
+      | 2 => remove_option r_option r_KEY r_WS ch (oo_key o)
+      | 3 => append_option r_option r_KEY r_VALUE r_EQUAL r_WS r_NEWLINE ch (oo_key o) (oo_val o)
+      | 4 => Some (prepend_option r_option r_KEY r_VALUE r_EQUAL r_WS ch (oo_key o) (oo_val o))
+      | _ => replace_option r_option r_KEY r_VALUE ch (oo_key o) (oo_new o)
+      end in
+    tag (onodes_eqb model (oo_after o)) 29 ++
+    (* the call raised an internal error *)
+    tag (Nat.eqb (oo_exc o) 0) 32 ++
+    (* set_option: afterwards the (first) option with that key has the new value — on the implementation's own tree *)
+    match oo_kind o, oo_after o, oo_val o with
+    | 1, Some after, Some v =>
+        tag (match find (fun n => is_option r_option n &&
+                                  match get_key r_KEY n with Some k => text_eqb k (oo_key o) | None => false end) after with
+             | Some n => match get_value r_VALUE n with Some v' => text_eqb v' v | None => false end
+             | None => false
+             end) 31 ++
+        (* guard: the option that is set has a VALUE to replace *)
+        tag (match find (fun n => is_option r_option n &&
+                                  match get_key r_KEY n with Some k => text_eqb k (oo_key o) | None => false end) ch with
+             | Some n => match get_value r_VALUE n with Some _ => true | None => false end
+             | None => true
+             end) 231
+    | _, _, _ => []
+    end ++
+    (* guard of remove_option: the model does not run into the empty new_children *)
+    match oo_kind o with
+    | 2 => tag (match remove_option r_option r_KEY r_WS ch (oo_key o) with Some _ => true | None => false end) 232
+    | _ => []
+    end) (c_opts c).
+
 Definition verdict (c : case) : list nat :=
-  check_split c ++ check_parse c ++ check_edits c ++ guard_tags c.
+  check_split c ++ check_parse c ++ check_edits c ++ check_opts c ++ guard_tags c.
 
 (* ================================================================================================
    Model-level oracle: update_source() of an unmodified model, and single-component edits.
